@@ -203,6 +203,17 @@ def build_table():
         pz = {"X": pz["X"], "Z": pz["Y"]}
         add(f"J:{g}:bloc names differ in pref_intervals_by_bloc", (lambda mk=mk, pz=pz: mk(**params(pis=pz))), ValueError)
         add(f"J:{g}:extra bloc in bloc_voter_prop", (lambda mk=mk: mk(**params(prop={"X": 0.5, "Y": 0.3, "Z": 0.2}))), ValueError)
+        # every other way the three dictionaries can disagree on the set of blocs
+        base = params()
+        pis3 = dict(base["pref_intervals_by_bloc"], Z=base["pref_intervals_by_bloc"]["Y"])
+        coh3 = dict(base["cohesion_parameters"], Z={"X": 0.5, "Y": 0.5})
+        add(f"J:{g}:extra bloc in pref_intervals_by_bloc and cohesion_parameters", (lambda mk=mk, a=pis3, b=coh3: mk(**params(pis=a, coh=b))), ValueError)
+        add(f"J:{g}:extra bloc in pref_intervals_by_bloc only", (lambda mk=mk, a=pis3: mk(**params(pis=a))), ValueError)
+        add(f"J:{g}:extra bloc in cohesion_parameters only", (lambda mk=mk, b=coh3: mk(**params(coh=b))), ValueError)
+        add(f"J:{g}:bloc missing from bloc_voter_prop", (lambda mk=mk: mk(**params(prop={"X": 1.0}))), ValueError)
+        add(f"J:{g}:bloc missing from cohesion_parameters", (lambda mk=mk: mk(**params(coh={"X": {"X": 0.8, "Y": 0.2}}))), ValueError)
+        add(f"J:{g}:bloc missing from pref_intervals_by_bloc",
+            (lambda mk=mk, a={"X": base["pref_intervals_by_bloc"]["X"]}: mk(**params(pis=a))), ValueError)
         # partial parameter triples
         full = params()
         for drop in full:
@@ -250,7 +261,7 @@ def build_cases(tier, seed):
     _TABLE = build_table()
     _CASES = list(range(len(_TABLE)))
     meta = {
-        "family": f"decision table of {len(_TABLE)} requests: ballot without ranking (13 ranking rules x 2 kinds x first/middle/last/only), tied positions "
+        "family": f"decision table of {len(_TABLE)} requests (bloc-name disagreements in every direction: renamed, extra in one / two dictionaries, missing from one): ballot without ranking (13 ranking rules x 2 kinds x first/middle/last/only), tied positions "
                   "(STV family), non-integer weights (PluralityVeto, random transfer), missing scores (6 score rules), m in {0,-1,n+1,7} (15 rules), "
                   "Alaska stage sizes, score vectors, L/k limits, quota names, duplicate candidates, generator parameter checks at 1+-1e-7 (reject) "
                   "and 1+-1e-10 (accept), bloc-name mismatches, overlapping intervals, missing parameters; plus the boundary accept cases",
